@@ -47,6 +47,7 @@ Proof.
       destruct (host_ok _ _); try reflexivity; destruct (fix_host _ _ _); reflexivity.
   - (* hash *) apply (host_ops_query s); [reflexivity|reflexivity|exact C].
   - (* pathname *) apply (host_ops_query s); [reflexivity|reflexivity|exact C].
+  - (* username / password *) exact C.
 Qed.
 
 Theorem urun_coh ops : forall s, Coh s -> Coh (urun s ops).
@@ -225,6 +226,7 @@ Proof.
     destruct (fix_host lower norm_host (scheme s) _) as [h2|] eqn:F; cbn; [eapply fix_host_inv; eauto|exact D].
   - (* hash *) exact I.
   - (* pathname *) exact I.
+  - (* username / password *) exact I.
 Qed.
 
 Theorem urun_host ops : forall s, Forall wf_op ops -> HostInv s -> HostInv (urun s ops).
